@@ -255,4 +255,78 @@ theorem act_append_only (fs : Fs) (g2 : Good2 fs) (a : Act) (ok : ActOk fs a) (x
         intro hk; rw [vis_hidden_gen fs p v _ ht0 key hk] at hvis; cases hvis
       rw [hframe key hkey]; exact hvis
 
+/-! ### transient I/O faults -/
+
+/-- the tree an act leaves when a transient I/O fault hits its `j`-th atomic micro-operation (it raises) -/
+def faultTree (fs : Fs) (a : Act) (j : Nat) : Fs :=
+  (runSome fs (faultAtoms (atomsAll (runAct Impl.repaired fs a).calls.flatten) j)).1
+
+/-- the trees an act can leave: at its end, where the process dies, or where a transient fault makes it raise -/
+def LeftByActF (fs : Fs) (a : Act) (x : Fs) : Prop := LeftByAct fs a x ∨ ∃ j, x = faultTree fs a j
+
+theorem runSome_stateFiles (L : List Op) (fs : Fs) (sf : StateFiles fs) (ok : ∀ op ∈ L, OpSF op) :
+    StateFiles (runSome fs L).1 := by
+  obtain ⟨n, hn⟩ := runSome_prefix L fs
+  exact run_stateFiles _ fs _ sf (fun op hop => ok op (List.mem_of_mem_take hop)) hn
+
+/-- outside `copytree` (every act but a publish) a fault is a crash at that point seen by a process that lives on -/
+theorem faultTree_crash (fs : Fs) (a : Act) (j : Nat) (hne : ∀ dp name v pkg, a ≠ .publish dp name v pkg) :
+    faultTree fs a j = (runSome fs (crashOps (atomsAll (runAct Impl.repaired fs a).calls.flatten) j none)).1 := by
+  simp only [faultTree, crashOps_none]
+  congr 2
+  apply faultAtoms_take
+  intro op hop
+  cases a with
+  | idle => simp [runAct, atomsAll] at hop
+  | publish dp name v pkg => exact absurd rfl (hne dp name v pkg)
+  | write p v sid b =>
+    obtain ⟨c, hc, f, hf⟩ := runCalls_atoms_mem _ fs op hop
+    simp only [List.mem_cons, List.not_mem_nil, or_false] at hc; subst hc
+    exact trainCalls_noMember Impl.repaired p v 0 [(sid, b)] (fun fs => writeOps fs p v sid b)
+      (by simp [trainCalls]) f op hf
+  | close p v ord sids =>
+    obtain ⟨c, hc, f, hf⟩ := runCalls_atoms_mem _ fs op hop
+    simp only [List.mem_cons, List.not_mem_nil, or_false] at hc; subst hc
+    have key : ∀ a ∈ atomsAll (closeOps Impl.repaired f p v (nextGen f p v) ⟨ord, sids⟩), NoMember a := by
+      intro a ha
+      simp only [atomsAll_closeOps] at ha
+      simp only [closeOps, List.mem_append, List.mem_map] at ha
+      rcases ha with (ha | ⟨s, _, rfl⟩) | ha
+      · obtain ⟨q, _, rfl, _⟩ := mem_mkdirP _ _ _ ha; trivial
+      · trivial
+      · simp only [tagWriteOps, Impl.repaired, if_true, List.mem_cons, List.not_mem_nil, or_false] at ha
+        rcases ha with rfl | rfl | rfl
+        · simp [NoMember, isMemberPath, tagTmpP]
+        · simp [NoMember, isMemberPath, tagTmpP]
+        · trivial
+    exact key op hf
+
+theorem act_left_F (fs : Fs) (g2 : Good2 fs) (a : Act) (ok : ActOk fs a) (x : Fs) (hx : LeftByActF fs a x) :
+    Good2 x ∧ (ViewEq x fs ∨ ((runAct Impl.repaired fs a).err = none ∧ x = (runAct Impl.repaired fs a).fs)) := by
+  rcases hx with hx | ⟨j, rfl⟩
+  · exact act_left fs g2 a ok x hx
+  · by_cases hp : ∃ dp name v pkg, a = .publish dp name v pkg
+    · obtain ⟨dp, name, v, pkg, rfl⟩ := hp
+      have hfl := fault_left fs g2.good (.publish dp name v pkg) j
+      refine ⟨⟨hfl.1, ?_⟩, hfl.2⟩
+      apply runSome_stateFiles _ fs g2.sf
+      intro op hop
+      have hmem := faultAtoms_mem _ j op hop
+      cases hg : publishGuard Impl.repaired fs dp name v with
+      | some e => simp [runAct, exec, hg, atomsAll] at hmem
+      | none =>
+        simp only [runAct, exec, hg] at hmem
+        obtain ⟨c, hc, f, hf⟩ := runCalls_atoms_mem _ fs op hmem
+        simp only [List.mem_cons, List.not_mem_nil, or_false] at hc; subst hc
+        exact atomsAll_opSF _ (pushOps_opSF _ f name v pkg) op hf
+    · have hne : ∀ dp name v pkg, a ≠ .publish dp name v pkg := fun dp name v pkg e => hp ⟨dp, name, v, pkg, e⟩
+      rw [faultTree_crash fs a j hne]
+      exact act_left fs g2 a ok _ (Or.inr ⟨j, none, rfl⟩)
+
+theorem act_append_only_F (fs : Fs) (g2 : Good2 fs) (a : Act) (ok : ActOk fs a) (x : Fs) (hx : LeftByActF fs a x)
+    (key : Path) (n : Node) (hvis : vis fs key = some n) : vis x key = some n := by
+  rcases (act_left_F fs g2 a ok x hx).2 with hv | ⟨_, hfs⟩
+  · rw [hv key]; exact hvis
+  · exact act_append_only fs g2 a ok x (Or.inl hfs) key n hvis
+
 end ForML.Registry
